@@ -4,6 +4,8 @@ package main
 // verif transport hook against scripted replies, after a real handshake with the reference BMC.
 
 import (
+	"encoding/binary"
+	"net"
 	"bytes"
 	"context"
 	"crypto/rand"
@@ -23,6 +25,7 @@ import (
 func init() {
 	executors["send"] = execSend
 	executors["sendhist"] = execSendHist
+	executors["sendseq"] = execSendSeq
 	scenarios["send"] = genSend
 }
 
@@ -117,6 +120,9 @@ func (e *sessEnv) send(ctx context.Context, p []byte) ([]byte, error) {
 	e.pos++
 	if item == "L" {
 		return nil, errors.New("timeout")
+	}
+	if item == "W" { // the socket refuses the write (link down, no buffers): nothing leaves, a *net.OpError comes back
+		return nil, &net.OpError{Op: "write", Net: "udp", Err: errors.New("network is unreachable")}
 	}
 	r := unhx(strings.TrimPrefix(item, "R:"))
 	for i := range e.recv { // the reused receive buffer holds stale bytes beyond the reply
@@ -307,6 +313,65 @@ func execSendHist(a []string) (string, string) {
 	return fmt.Sprintf("n=%d ivs=%s seqs=[%s]", len(e.sent), hx(ivs), strings.Join(seqs, ", ")), verdict
 }
 
+// sendseq <auth> <integ> <k1> <k2> <localID> <remoteID> <inbound> <entropy> <script>|<script>|…: a HISTORY of commands
+// (Get Device ID each) on one session, each with its own reply script over {R:<datagram>, L (read timeout), W (socket
+// write error)}: the sequence numbers of all datagrams handed to the transport, the result class of each command and
+// the final counter
+func execSendSeq(a []string) (string, string) {
+	auth, integ := byte(atoi(a[0])), byte(atoi(a[1]))
+	k1, k2 := unhx(a[2]), unhx(a[3])
+	inb := uint32(atoi(a[6]))
+	entropy := unhx(a[7])
+	e, err := openSession(auth, integ)
+	if err != nil {
+		return "handshake-failed", ""
+	}
+	defer e.cancel()
+	if !bytes.Equal(e.sess.K(1), k1) || !bytes.Equal(e.sess.K(2)[:16], k2) {
+		return "session-differs-from-op", ""
+	}
+	e.sess.AuthenticatedSequenceNumbers.Inbound = inb
+	old := rand.Reader
+	rand.Reader = io.Reader(&cycleReader{b: entropy})
+	defer func() { rand.Reader = old }()
+	var results []string
+	for _, sc := range strings.Split(a[8], "|") {
+		e.script, e.pos = nil, 0
+		if sc != "-" {
+			e.script = strings.Split(sc, ",")
+		}
+		// a fresh context per command (the scripted transport cancels it when a script runs out)
+		e.ctx, e.cancel = context.WithTimeout(context.Background(), 10*time.Second)
+		c := &rawCmd{op: ipmi.Operation{Function: ipmi.NetworkFunctionAppReq, Command: 0x01}}
+		_, err := e.sess.SendCommand(e.ctx, c)
+		e.cancel()
+		if err == nil {
+			results = append(results, "ok")
+		} else {
+			results = append(results, "err")
+		}
+	}
+	var seqs []string
+	seen := map[uint32]int{}
+	verdict := ""
+	for i, p := range e.sent {
+		if len(p) < 14 {
+			return "short-datagram", "a transmitted datagram is shorter than a session header"
+		}
+		q := binary.LittleEndian.Uint32(p[10:14])
+		seqs = append(seqs, fmt.Sprint(q))
+		if j, dup := seen[q]; dup && verdict == "" {
+			verdict = fmt.Sprintf("datagram %d reuses the session sequence number %d of datagram %d", i+1, q, j+1)
+		}
+		seen[q] = i
+		if want := inb + uint32(i) + 1; q != want && verdict == "" {
+			verdict = fmt.Sprintf("datagram %d carries sequence number %d, want %d", i+1, q, want)
+		}
+	}
+	return fmt.Sprintf("seqs=[%s] res=[%s] inbound=%d", strings.Join(seqs, ", "), strings.Join(results, ", "),
+		e.sess.AuthenticatedSequenceNumbers.Inbound), verdict
+}
+
 // sessKeys runs the handshake once per suite to learn the (constant) session parameters
 type sessParams struct {
 	auth, integ byte
@@ -421,7 +486,29 @@ func replyFor(g *genCtx, sp sessParams, class byte, fn, cmdNo byte, prefix []byt
 // strayReply picks a response that belongs to ANOTHER operation than (fn, cmdNo, prefix): another NetFn, another command
 // number, or - for group-extension / OEM NetFns - the same NetFn and command under another defining body / enterprise
 // number; with any completion code (normal, temporary, error) and with or without data
+// strayFixed: when non-nil, every stray of the current script is a duplicate of this one other operation (late duplicates
+// of ONE earlier command are the realistic case); generators reset it per script
+type strayOp struct {
+	fn, cmd byte
+	prefix  []byte
+}
+
+var strayFixed *strayOp
+var strayFix bool
+
 func strayReply(g *genCtx, fn, cmdNo byte, prefix []byte) (fn2, cmd2 byte, prefix2 []byte, cc byte, data []byte) {
+	if strayFix && strayFixed != nil {
+		cc = []byte{0, 0, 0, 0xC0, 0xC3, 0xC1, 0xCC, 0xD4, 0xFF, byte(g.rng.Intn(256))}[g.rng.Intn(10)]
+		if g.rng.Intn(3) != 0 {
+			data = []byte{0x99, 0x98}
+		}
+		return strayFixed.fn, strayFixed.cmd, strayFixed.prefix, cc, data
+	}
+	defer func() {
+		if strayFix {
+			strayFixed = &strayOp{fn2, cmd2, prefix2}
+		}
+	}()
 	fn2, cmd2, prefix2 = fn, cmdNo, append([]byte(nil), prefix...)
 	k := g.rng.Intn(3)
 	if k == 2 && len(prefix) == 0 {
@@ -493,6 +580,7 @@ func genSend(g *genCtx) {
 		}
 		var items []string
 		nontrivial := false
+		strayFixed, strayFix = nil, g.rng.Intn(2) == 0
 		for i, l := range script {
 			if l == 'L' {
 				items = append(items, "L")
@@ -551,5 +639,38 @@ func genSend(g *genCtx) {
 			fmt.Sprint(sp.lid), fmt.Sprint(sp.rid), itoa(hn), hx(rbytes(g.rng, 16*hn))}})
 		emit(sp, "F", 0, 0x06, 0x3b, 0, 0, 0, nil, true)
 		emit(sp, "BF", 7, 0x06, 0x3b, 0, 0, 0, nil, true)
+		// histories of commands with mixed outcomes, incl. socket WRITE errors (nothing leaves; a *net.OpError comes back)
+		// on first attempts and on retries: the numbers handed to the transport stay consecutive, none is reused
+		hist := 30
+		if g.thorough() {
+			hist = 400
+		}
+		for n := 0; n < hist; n++ {
+			inb0 := []uint32{0, 0, 5, 0xfffffff0}[g.rng.Intn(4)]
+			var scripts []string
+			attempt := 0
+			for c := 0; c < 2+g.rng.Intn(5); c++ {
+				var items []string
+				terminal := false
+				for k := 0; k < 1+g.rng.Intn(4) && !terminal; k++ {
+					attempt++
+					l := "FBBGSXWWL"[g.rng.Intn(9)]
+					switch l {
+					case 'W', 'L':
+						items = append(items, string(l))
+					default:
+						items = append(items, replyFor(g, sp, byte(l), 0x06, 0x01, nil, attempt))
+					}
+					terminal = l == 'F' || l == 'W' || l == 'L'
+				}
+				if !terminal { // every script ends in something terminal for a session
+					attempt++
+					items = append(items, []string{"L", "W"}[g.rng.Intn(2)])
+				}
+				scripts = append(scripts, strings.Join(items, ","))
+			}
+			g.emit(Op{Class: 'P', NonTrivial: true, Kind: "sendseq", Args: []string{itoa(int(sp.auth)), itoa(int(sp.integ)), hx(sp.k1), hx(sp.k2),
+				fmt.Sprint(sp.lid), fmt.Sprint(sp.rid), fmt.Sprint(inb0), hx(rbytes(g.rng, 16*(attempt+len(scripts)+2))), strings.Join(scripts, "|")}})
+		}
 	}
 }
